@@ -825,3 +825,6 @@ def run(idx, rep, tier):
     rep.floor('C09.R10', 'shared rows', len(_kept), 1)
     for o in rep.obligations[_before:]:
         o.rule = 'C09.R10'
+    from .c14 import sftp_init_guarded
+    rep.rule('C09.R11', 'closing an sftp channel before FXP_INIT, or a malformed version exchange, ends that session only (= C14.R14): exit() runs, the connection and its other sessions live on')
+    sftp_init_guarded(k, 'C09.R11')
